@@ -117,7 +117,8 @@ def run(rep, tier, seed):
     )
     model_check(rep)
     hists = histories(seed * 31 + 5, 60 if tier == "quick" else 400, 18 if tier == "quick" else 26)
-    fast = ["fifo_random", "fifo_random_dup", "fifo_grid", "hb_random", "hb_random_promo", "synchb", "dehb", "pbt", "regevo"]
+    fast = ["fifo_random", "fifo_random_dup", "fifo_grid", "hb_random", "hb_random_promo", "synchb", "dehb", "pbt", "regevo",
+            "hbt_pasha", "hbt_rush_stopping", "hbt_rush_promotion", "hbt_cost_promotion", "median", "moasha"]
     total = drive(rep, fast, hists, seed * 100, "model-free", 40 if tier == "quick" else 400)
     gp = ["fifo_bayesopt", "hb_bayesopt", "hb_hypertune"]
     c2 = drive(rep, gp, hists, seed * 100 + 7, "gp", 4 if tier == "quick" else 40)
